@@ -264,3 +264,17 @@ def created_nodes_are_inserted_at_the_normalised_path(c: Cache, path: str, oid: 
     ins2 = calls("_HierarchicalCache__insert_node")
     check(len(nn2) == 2 and nn2[1].args[0] == DIRECTORY and nn2[1].args[1] == oid, "mkdir: one new directory node with the id given")
     check(len(ins2) == 2 and ins2[1].args[0] is nn2[1].result and ins2[1].args[1] == c._provider.normalize_path(path) and r2 is nn2[1].result, "inserted at the normalised path and returned")
+
+
+@lemma(props=["C19"], configs="none", raises=["AssertionError"])
+def add_child_files_the_node_under_its_name(c: Cache, other: str):
+    """L19.12: Node.add_child on a directory node: the child is filed under its own name -- so the path view finds it
+    where its name says -- and no other child slot changes (the fixture's parent is a directory; the refusal of a file
+    parent is an assertion in the code and is not exercised here)"""
+    n = cache_node(c, "n")
+    p = n.parent
+    assume(other != n.name)
+    before = p.children.get(other)
+    p.add_child(n)
+    check(p.children.get(n.name) is n, "the child is filed under its own name")
+    check(p.children.get(other) is before, "no other child slot changes")
